@@ -130,6 +130,20 @@ Definition content_fits (d : doc_content) (r : response) : bool :=
 Definition doc_headers (declared : list (str * Response.fval)) : list str :=
   map fst declared.
 
+(* ------------------------------------------------------------ Option<T> at a site *)
+
+(* What gen_openapi converts at a response (or request body) site is
+   [schema(&mut generator)] = [generator.subschema_for::<Body>()].  For
+   [Body = Option<T>] with a referenceable [T] schemars (json_schema/impls/
+   core.rs, [option_nullable = true]) returns T's reference with the extension
+   beside it, { "$ref": r, "nullable": true }: the RemoveRefSiblings visitor of
+   the openapi3 settings, which would turn this into { allOf: [{$ref}],
+   nullable: true }, runs only in [root_schema_for] / [into_root_schema_for]
+   (on roots and on definitions), never on the value [subschema_for] returns. *)
+Definition option_ref_schema (r : str) : schema :=
+  SObj (mkSObj None None None None None None None None None None (Some r)
+               [(s_nullable, JBool true)]).
+
 (* ------------------------------------------------------------ error body *)
 
 Definition S_REQUEST_ID : str := bytes_of "request_id".
